@@ -4,12 +4,13 @@
 CONSTANTS
   N = 3
   NI = 2
+  NK = 2
   MaxClock = 5
   Retention = 2
   T = 2
   MaxCas = 8
   MaxFaults = 4
-  LiveStates = {"ACTIVE", "LEAVING"}
+  LiveStates = {"ACTIVE", "LEAVING", "PENDING"}
   WatchNodes = {1, 2, 3}
   HoldNodes = {1, 2}
   AllowRestart = TRUE
@@ -19,6 +20,7 @@ CONSTANTS
   GateNodes = {2, 3}
   InboxCap = 1
   VersionTest = TRUE
+  KeyTest = TRUE
   MaxDel = 0
   ObsoleteTimeout = 1
   ConsumeNet = FALSE
